@@ -311,6 +311,12 @@ class Builder:
                         data["model_tls_ok"] = False
                 elif data_fault == "handshake":
                     data["tls_ok"] = False
+                elif data_fault == "no-close-notify" and kind == "U":
+                    # the server takes the client's close-notify as the end of the file and closes without one of its own:
+                    # the TLS shutdown of the data connection does not complete (stream truncated) - reported, like a
+                    # download cut the same way
+                    data["answer_close_notify"] = False
+                    data["shutdown_ok"] = False
                 elif data_fault == "reset-before-handshake":
                     # the server opens / accepts the data connection, resets it, and still answers the command positively:
                     # the client finds a dead connection when it comes to its TLS handshake
@@ -359,6 +365,7 @@ class Builder:
         faulty = (data_fault in ("handshake", "reset-before-handshake") and self.tls and refuse_at is None) or \
                  (data_fault == "rogue-cert" and self.tls and refuse_at is None and self.cfg["verify"] != "none") or \
                  (data_fault == "truncate" and self.tls and refuse_at is None and kind != "U") or \
+                 (data_fault == "no-close-notify" and self.tls and refuse_at is None and kind == "U") or \
                  (listen == "dead" and self.mode == "P" and refuse_at != "setup")
         if listen == "dead" and self.mode == "P" and refuse_at != "setup":
             cmds = cmds[:1]            # the data connection cannot be opened: the transfer command is never sent
